@@ -21,6 +21,10 @@ MODEL_MODULE = 'V.C12.Model'
 DEFERRED = 2 ** 32 - 1
 INT_MIN = -2 ** 31
 INT_MAX = 2 ** 31 - 1
+# harness/h_c12.cpp W_*: the ways of walking a TheoryElementIterator / TheoryTermIterator (IteratorAdaptor) that are compared
+# with the direct begin()/size() view of the item
+WALK_BITS = [(1, 'prefix-increment'), (2, 'postfix-increment'), (4, 'prefix-decrement'), (8, 'postfix-decrement'), (16, 'dereference'),
+             (32, 'comparison'), (64, 'copy-swap-construct'), (128, 'std-bidirectional-algorithms')]
 NAMES = {1: 'addNum', 2: 'addSym', 3: 'addSymC', 4: 'addFunc', 5: 'addTuple', 6: 'removeTerm', 7: 'addElement',
          8: 'setCondition', 9: 'addAtom', 10: 'addAtomGuard', 11: 'update', 12: 'reset', 13: 'filter', 14: 'visit'}
 
@@ -28,7 +32,11 @@ RULE = ('cases = (probe ids, history of TheoryData operations: addTerm x5, remov
         'reset, filter, accept(all|current) with a recursive printing visitor); ids dense (0..5) or sparse (0, gaps, up to 16384), '
         'compound nesting up to 6 (chains, cycles, dangling references), numbers incl. INT_MIN/-1/INT_MAX, empty id lists, symbols of '
         'arbitrary non-NUL bytes (and a NUL kind), redefinition within and across update(), deferred conditions set once/twice, filter, '
-        'reset-and-reuse, 0-4 marks; PROVENANCE of arguments: in 3 of 4 cases (hash of the case) the harness passes the store\'s own memory '
+        'reset-and-reuse, 0-4 marks; PUBLIC ITERATOR ADAPTORS: every element of a probe id, every atom, every compound term read back after an op and every item '
+        'handed to the visitor by accept() is also walked through TheoryElementIterator / TheoryTermIterator (begin/end(TheoryData, atom|element) and the public constructor) '
+        'forwards with prefix and postfix ++, backwards from end() with prefix and postfix --, dereferenced with * and -> (same object as getElement/getTerm, or the same logic_error), '
+        'compared with ==/!= (also against a default-constructed one and one of another store), copied, assigned, swapped, and driven by std::distance/next/prev/advance/reverse_iterator; '
+        'each walk must agree with the direct begin()/size() view (observed as a mask, 0 = all agree); PROVENANCE of arguments: in 3 of 4 cases (hash of the case) the harness passes the store\'s own memory '
         '(getTerm(i).begin(), getElement(i).begin(), atom->begin(), getTerm(i).symbol()) wherever the requested id list / symbol equals what the store holds - '
         'the item being re-defined first (addTerm(id, g, getTerm(id).terms()) after update()), else another stored item; 8 % of the random operations and a stream '
         '"own-span" (300 cases) re-define items from their own stored content; after every op the lookups of all probe ids, the atom list, currBegin and the live allocations are '
@@ -37,7 +45,8 @@ TRUSTED_BASE = ['allocator modelled as returning fresh 4-aligned addresses (the 
                 'growth of the id-indexed stacks modelled in closed form (size := max size (id+1))',
                 'harness/h_c12.cpp replaces global operator new/delete to count the library\'s live allocations and their kind; its provenance switch (struct Own) decides from a hash of the case whether equal content is passed as the store\'s own memory',
                 'props/C12.py shadow table (oracle on the implementation)',
-                'the recursive visitor of the harness (marks an item before descending) is test scaffolding, modelled as visit_term/visit_elem/visit_atom']
+                'the recursive visitor of the harness (marks an item before descending) is test scaffolding, modelled as visit_term/visit_elem/visit_atom',
+                'the public iterator adaptors (IteratorAdaptor) are not modelled: the harness compares every walk over them with the direct view of the same item in C++ and prints the mask of differing walks (model: constant 0, oracle: must be 0)']
 ASSUMPTIONS = ['ids, atoms and conditions are 32-bit unsigned values, numbers 32-bit signed; function ids < 2^31 (FuncData::base is int32_t), atoms < 2^31 (31-bit field)',
                'symbol contents are compared as C strings (TheoryTerm::symbol() is a const char*): a symbol with an embedded NUL comes back truncated (known finding symbol-nul)',
                'ids up to 16384 are exercised against the real code (the stacks realloc on every push: 2^20 is quadratic under ASan); the proofs are for all ids',
@@ -49,7 +58,7 @@ LEVEL_TEXT = ('Machine-checked (Coq): the concrete model of TheoryData (sparse i
               'ledger with allocation kinds) refines a plain table for every operation and every history; the ledger invariant (live cells = exactly '
               'the stored items, each owned once) holds after every operation including refused ones and the ledger is empty after reset; accept() '
               'an item of an earlier step re-defined from its own stored content comes back with exactly that content (arguments are values; the harness passes '
-              'the store\'s own spans / symbols to check it); accept() overloads visit exactly the stored referenced items (current mode: the new ones), the recursive printing visitor is sound, terminating and complete for the reference closure; the tagged word returns every 32-bit number. The model is tied to the '
+              'the store\'s own spans / symbols to check it); accept() overloads visit exactly the stored referenced items (current mode: the new ones), the recursive printing visitor is sound, terminating and complete for the reference closure; the tagged word returns every 32-bit number. The public iterator adaptors (TheoryElementIterator / TheoryTermIterator) are checked by the harness only: every walk (prefix/postfix ++ and --, *, ->, ==, !=, copy, swap, std algorithms) over every item read back or visited agrees with the stored id list. The model is tied to the '
               'code by differential correspondence (sanitizer build, counting operator new/delete) and an independent shadow-table oracle.')
 LEVEL_NOTE = ('Trusted: Coq kernel/vm_compute, extraction+driver (sample cross-checked), harness, translator; allocator and realloc growth modelled; '
               'heap addresses are fresh and never reused in the model.')
@@ -436,8 +445,8 @@ def parse_obs(probes, ops, obs):
         for _ in range(n):
             r, p = parse_rec(obs, p)
             d['atoms'].append(r)
-        d['curr'] = obs[p]; d['live'] = obs[p + 1]
-        p += 2
+        d['curr'] = obs[p]; d['live'] = obs[p + 1]; d['walk'] = obs[p + 2]
+        p += 3
         res.append(d)
     fin = obs[p:p + 2]
     if len(fin) != 2 or p + 2 != len(obs):
@@ -533,6 +542,12 @@ def oracle(c, obs):
             add('atoms-differ')
         if d['curr'] != sh.bA:
             add('currBegin-differs')
+        if d['walk'] != 0:
+            # the harness walked the public iterator adaptors over every item it read back / was handed by accept() and compared
+            # each walk with the direct begin()/size() view of the same item: a set bit = that way of walking differed
+            named = [n for b, n in WALK_BITS if d['walk'] & b]
+            for n in named or ['unknown-bit-%d' % d['walk']]:
+                add('iterator-adaptor-walk-differs:' + n)
         if d['live'] != sh.live():
             add('live-allocations-differ:' + ('leak' if d['live'] > sh.live() else 'lost') + ':' + NAMES[k])
     if fin[0] != 0:
@@ -854,6 +869,13 @@ FIXED += [(with_alias(pr, ops, (1, 3)), 'own-content') for pr, ops in [
     ([0, 1], [(2, 0, [112]), (1, 1, 7), (7, 0, [0, 1, 1, 0, 1, 0, 1], 3), (9, 1, 0, [0]), (11,), (7, 0, [0, 1, 1, 0, 1, 0, 1], 9), (7, 1, [0, 1, 1, 0, 1, 0, 1], DEFERRED), (14, 0)]),
     # refused inside the step (own span passed, nothing may change or leak), then accepted after the mark; other ids from the same span
     ([3, 4], [(1, 0, 1), (2, 1, [102]), (4, 3, 1, [0, 0, 3]), (4, 3, 1, [0, 0, 3]), (11,), (5, 3, -2, [0, 0, 3]), (4, 4, 1, [0, 0, 3]), (7, 2, [0, 0, 3], 0), (9, 5, 1, [0, 0, 3]), (14, 0)]),
+]]
+# seeded change C12-r15: the public iterator adaptors are walked over every item read back / visited (harness walkAdaptor): lists of 0, 1, 2 and 5
+# ids, with repeated and with dangling ids (dereference = the logic_error of getElement / getTerm), before and after a mark
+FIXED += [(encode(pr, ops), 'iterator-walk') for pr, ops in [
+    ([0, 1, 2, 3, 4], [(2, 0, [102]), (1, 1, 7), (4, 2, 0, [1]), (5, 3, -1, [1, 2, 1, 0, 2]), (4, 4, 0, []), (7, 0, [], 0), (7, 1, [3], 0), (7, 2, [0, 1], DEFERRED),
+                       (7, 3, [2, 3, 2, 1, 0], 5), (9, 1, 0, []), (9, 2, 0, [1]), (10, 3, 0, [3, 0, 3, 2, 1], 0, 1), (14, 0), (11,), (7, 4, [4, 4], 0), (9, 4, 0, [4, 3]), (14, 1), (14, 0)]),
+    ([0, 1, 9], [(2, 0, [102]), (7, 0, [0, 9, 0], 0), (9, 1, 0, [0, 9, 0]), (4, 1, 0, [9, 0]), (14, 1), (14, 0)]),
 ]]
 # the shapes that are outside the stated assumptions are kept out of the default stream
 OUT_OF_ASSUMPTIONS = ('funcid-signbit', 'atom-31bit')
